@@ -6,6 +6,18 @@ HERE = os.path.dirname(os.path.dirname(os.path.abspath(__file__)))
 TECH = "bounded symbolic execution of go/ssa of /repo (own engine symgo) + z3 SMT (QF_BV/UF), counterexamples replayed natively"
 
 CLAIMED = {
+ "C01": dict(
+   text="Byte layer of the NBT decoder against an independent grammar reference executed side by side: for every byte string of length 0..7 (quick) / 0..11 (thorough) and every root tag byte that the reference classifies as a complete value, the raw reader (RawMessage capture and unknown-field skipping, through a DecoderReader source and through a plain io.Reader with 1-2 byte reads) accepts it, consumes exactly its bytes (no over-read) and captures them byte for byte, also into a reused carrier; readInt8/16/32/64 are big-endian signed for all 2^64 inputs. The typed layer (Decode/Encode through reflect) is outside the claim.",
+   note="reflect-driven typed decode/encode, strings beyond the input bound and depth > 4 are not covered; number formatting is stubbed.",
+   ref="6 C01"),
+ "C02": dict(
+   text="Carriers are byte-exact: for every byte string of length 0..7 and every tag that forms a complete value (independent reference), RawMessage and dynbt.Value decode it and MarshalNBT reproduces exactly those bytes, with the tag type kept, also when the same carrier was used for other documents before (stale list, compound fields, data capacity). The typed Unmarshal(Marshal(v)) round trip (reflect) is outside the claim.",
+   note="typed round trip not covered (reflect); carriers only at the root position.",
+   ref="6 C02"),
+ "C03": dict(
+   text="Totality of the byte-level decoders: every byte string of length 0..7 (quick) / 0..10 (thorough) with every tag byte into RawMessage (DecoderReader and plain reader), StringifiedMessage.UnmarshalNBT, RawMessage.String and dynbt.Value: no reachable Go panic on any path (every index, slice, make, nil, division site is a solver query), no loop without consuming input (instruction budget), and - classified by the independent reference - a strict prefix of a value, a negative declared length and an unknown tag id all yield an error. Nothing is asserted for inputs the reference cannot classify.",
+   note="typed targets (structs, maps, any) need reflect and are outside; decimal formatting of |v| >= 10^5 and float formatting are placeholders; allocation size is not a panic.",
+   ref="6 C03"),
  "C05": dict(
    text="All 2^32 VarInt and 2^64 VarLong values (full width, no value bound): encoder bytes/count/Len equal a textbook LEB128 reference, decode(encode(v))==v with exact consumption through both reader paths, and every 12-byte buffer is decoded with at most 5/10 bytes consumed and an error on longer continuation runs. Decided per path by z3; loops unwound with an unwinding check.",
    note="64-bit target; go/ssa + symgo instruction semantics (validated by native replay of witnesses); z3 soundness; bytes.Buffer/bytes.Reader/io.ReadFull executed from their real source.",
